@@ -38,17 +38,18 @@ PROPS = {
         'units': ['builder', 'registry', 'encode', 'bytesio'],
         'kani': ['to_le_bytes_spec'],
         'scans': ['determinism'],
-        'own': {'builder': r'MapBuilder|SetBuilder|Builder::(new|new_type|finish|into_inner|bytes_written|get_ref|insert|add)$', 'registry': r'Registry::hash|Registry::entry'},
+        'own': {'builder': r'MapBuilder|SetBuilder|Builder::(new|new_type|finish|into_inner|bytes_written|get_ref|insert|add|memory|into_fst|extend_iter)$|from_iter', 'registry': r'Registry::hash|Registry::entry'},
         'level_text': 'Proof of delegation: MapBuilder::{new, insert, finish, into_inner, get_ref, bytes_written}, SetBuilder::{...} and '
                       'Builder::{new, finish} are verified to be exactly the raw-builder calls (same result, same state), so the raw, map and '
                       'set builders are one code path; every emitting function appends a byte string that is a spec function of builder '
                       'state and arguments. Determinism: verified executable functions are functions of their inputs unless an external '
                       'callee is not; a token scan of the builder-side sources for RandomState / HashMap / thread_local / static mut / clock / '
                       'env / pointer casts is reported as a checked frame condition (not a proof).',
-        'level_note': 'from_iter / extend_iter / extend_stream loops not decided; "across processes and threads" not applicable (no thread '
-                      'or process model); Builder::memory()/into_fst (unwrap of an infallible Vec sink) not under contract.',
+        'level_note': 'extend_stream not decided; "across processes and threads" not applicable (no thread or process model). '
+                      'memory()/into_fst/into_map/into_set, from_iter (Map, Set), Fst::from_iter_set/from_iter_map and extend_iter are verified on '
+                      'their real bodies: each is the same insert/add sequence on the same raw builder, over Vec<u8> as an infallible sink.',
         'explanation': '',
-        'assumptions': ['determinism scan is syntactic', 'iterator front ends not decided', 'processes / threads: not applicable'],
+        'assumptions': ['determinism scan is syntactic', 'extend_stream not decided', 'processes / threads: not applicable'],
     },
     'C01': {
         'units': ['builder', 'encode', 'layout', 'decode', 'registry', 'bytesio', 'cw', 'stream', 'open'],
@@ -175,7 +176,7 @@ PROPS = {
     'C06': {
         'units': ['builder'],
         'kani': [],
-        'own': {'builder': r'Builder::(check_last_key|insert|add|insert_output|extend_iter|extend_stream)$'},
+        'own': {'builder': r'Builder::(check_last_key|insert|add|insert_output|extend_iter|extend_stream)$|from_iter'},
         'level_text': 'Proof: Builder::check_last_key is verified on its real body against the full ordering contract (which answer, '
                       'both error payloads, the whole struct unchanged on Err, only `last` changed on Ok); insert/add are verified to run '
                       'it first and to leave the builder untouched when it rejects, and otherwise to extend the denotation of the builder '
